@@ -325,8 +325,8 @@ impl Property for C06 {
     }
     fn plan(&self, tier: Tier) -> Vec<Segment> {
         vec![
-            Segment::random("histories", tier.pick(450_000, 16_000_000), &[0], 8, 600),
-            Segment::random("histories-long-vectors", tier.pick(90_000, 2_400_000), &[1], 8, 600),
+            Segment::random("histories", tier.pick(450_000, 8_000_000), &[0], 8, 600),
+            Segment::random("histories-long-vectors", tier.pick(90_000, 1_200_000), &[1], 8, 600),
             Segment::enumerated("huge(>2^32 bits)", tier.pick(2, 6), &[9]),
         ]
     }
